@@ -30,7 +30,8 @@ NAME_STEMS = ["from_", "import_", "ifx_", "for_", "while_", "def_", "pass_", "pr
               "with_", "as_", "del_", "lambda_", "int_", "float_", "str_", "bool_", "list_", "loop_", "setup_", "delay_", "serial_", "string_",
               "importance", "fromage", "iffy", "format", "define", "passed", "tryout", "whiles", "forty", "printer", "targets", "sleeper", "_", "__x"]
 
-STR_ATOMS = ["a", "b", "ok", "x1", "go", "Z", "hi there", "n=", "-", "v:"]
+# (apostrophes inside double-quoted literals and '#' inside literals: neither ends the string nor starts a comment)
+STR_ATOMS = ["a", "b", "ok", "x1", "go", "Z", "hi there", "n=", "-", "v:", "it's", "5 o'clock", "#1", "a # b", "don't"]
 
 
 class Var:
@@ -93,7 +94,7 @@ class ProgGen:
             col = self.r.choice([0, 0, 4 * self.ind, 4 * self.ind + 4, max(0, 4 * self.ind - 4), 1])
             self.lines.append(" " * col + self.r.choice(["# note", "#", "# TODO: tune", "#led.on()", "# while True:", "# open (bracket", "# [", "# it's", "# \"", "# x = {"]))
             self.feat("comment-line")
-        if text and self.r.random() < 0.03 and '"' not in text and "'" not in text:
+        if text and self.r.random() < (0.03 if '"' not in text else 0.06):
             text = text + self.r.choice(["  # trailing", " # x = 1", "  #", "  # (unclosed", " # a[0", "  # it's"])
             self.feat("trailing-comment")
         self.lines.append(("    " * self.ind + text) if text else "")
